@@ -3,11 +3,14 @@
 # (plus the extra checks listed in meta.json "also_run"), update meta.json "detection" and write seeded/RESULTS.md.
 set -u
 TIER="${1:-quick}"
+FILTER="${2:-}"   # optional substring of the seed ids to run (all seeds are always listed in RESULTS.md)
 cd "$(dirname "$0")/.."
 if [ -n "$(git -C /repo status --porcelain)" ]; then echo "/repo is not clean" >&2; exit 2; fi
 for d in seeded/*/; do
-  id=$(basename "$d"); prop=${id%%-*}
+  id=$(basename "$d")
   [ -f "$d/patch.diff" ] || continue
+  case "$id" in *"$FILTER"*) ;; *) continue ;; esac
+  prop=$(python3 -c "import json;print(json.load(open('$d/meta.json'))['breaks_property'])")
   extra=$(python3 -c "import json;print(' '.join(json.load(open('$d/meta.json')).get('also_run',[])))" 2>/dev/null)
   out=$(tools/try_patch.sh "$PWD/$d/patch.diff" "$TIER" "$prop" $extra 2>&1)
   echo "== $id"; echo "$out" | cut -c1-200
